@@ -8,6 +8,7 @@ import traceback
 
 from .. import spec
 from ..core import Result
+from ..values import hints_of
 from ..valuework import plan_items, replay_value, run_value_shard
 from ..values import attr_names, diff_signature, diff_trees
 from ..wiregen import WireGen
@@ -306,7 +307,7 @@ def _mutate(c) -> str:
                 continue
             hint = None
             try:
-                hint = type(c)._type_hints().get(nm)
+                hint = hints_of(type(c)).get(nm)
             except Exception:
                 pass
             val = {int: 3, str: "sw", bool: True, float: 1.5, bytes: b"sw"}.get(hint)
